@@ -241,6 +241,62 @@ def poll_crash(prog: dict, times: int) -> dict:
         run.close()
 
 
+def operator(prog: dict, seed: int, pause_at: int = -1, unpause_after: int = 3, restart: str = "", shuffle: bool = True,
+             hold: str = "", max_steps: int = 400) -> dict:
+    """Operator actions on a (seeded, possibly shuffled) run: pause before delivery step `pause_at`, unpause once the run
+    has gone quiet or `unpause_after` steps later; after the workflow finished, restart stage `restart` and drain again."""
+    rng = random.Random(seed)
+    run = Run(prog, "operator")
+    try:
+        run.start()
+        step = 0
+        paused_at = None
+        unpaused = False
+        restarted = False
+        for _ in range(max_steps):
+            step += 1
+            rows = run.rows()
+            vis = [r for r in rows if not r["locked"] and not r["delayed"] and r["att"] < r["max"]]
+            if hold:    # the ResumeStage of stage `hold` is a straggler: delivered only when nothing else can be
+                rest = [r for r in vis if not (r["typ"] == "ResumeStage" and r["key"][1] == hold)]
+                vis = rest or vis
+            locked = [r for r in rows if r["locked"]]
+            if step == pause_at and run.proj.state()["wf"]["status"] == "RUNNING":
+                run.pause()
+                paused_at = step
+                continue
+            if paused_at is not None and not unpaused and (not vis or step >= paused_at + unpause_after):
+                run.unpause()
+                unpaused = True
+                continue
+            if not rows:
+                if restart and not restarted and run.proj.state()["st"].get(restart, {}).get("status") in (
+                        "SUCCEEDED", "TERMINAL", "CANCELED", "SKIPPED", "FAILED_CONTINUE", "STOPPED"):
+                    run.restart_stage(restart)
+                    restarted = True
+                    continue
+                break
+            if locked and (not vis or rng.random() < 0.2):
+                run.expire(rng.choice(locked)["qid"])
+                continue
+            if vis:
+                r = rng.choice(vis) if shuffle else vis[0]
+                run.deliver(r["qid"], ack=(rng.random() >= 0.1) if shuffle else True)
+                continue
+            delayed = [r for r in rows if r["delayed"] and not r["locked"] and r["att"] < r["max"]]
+            if delayed:
+                run.warp(min(delayed, key=lambda r: r["deliver_at"])["qid"])
+                continue
+            if [r for r in rows if r["att"] >= r["max"]]:
+                run.dlq_sweep()
+                continue
+            break
+        return run.as_trace({"kind": "operator", "seed": seed, "pause_at": pause_at, "unpause_after": unpause_after,
+                             "restart": restart, "shuffle": shuffle, "hold": hold})
+    finally:
+        run.close()
+
+
 def fifo_steps(prog: dict) -> int:
     run = Run(prog, "cnt")
     try:
@@ -308,6 +364,8 @@ def job(spec: dict[str, Any]) -> list[dict]:
         return [schedule(prog, seed, **spec.get("opts", {})) for seed in spec["seeds"]]
     if kind == "inject":
         return [fifo_with_injection(prog, at, spec["what"], spec.get("times", 1)) for at in spec["at"]]
+    if kind == "operator":
+        return [operator(prog, sd, **spec.get("opts", {})) for sd in spec["seeds"]]
     if kind == "pollcrash":
         return [poll_crash(prog, k) for k in spec["cases"]]
     if kind == "signal-crash":
